@@ -456,6 +456,7 @@ static void group_main(const Group& g, int64_t max_pool_bytes, int maxlen, const
         std::string sig;
         std::string r = run_case(w, g, idx, sig);
         ncases++;
+        if (getenv("C29_DEBUG")) fprintf(stderr, "[case] %s/%d%s [%s] -> %s %s\n", STNAME[g.state], g.profile, g.test_accept ? "t" : "", name.c_str(), sig.c_str(), r.c_str());
         if (!r.empty()) {
             std::string key = r.substr(0, r.find('\t'));
             if (vkeys.insert(key).second && vkeys.size() <= 12) fprintf(f, "V\t%s\n", r.c_str());
